@@ -46,10 +46,10 @@ FLOORS = {
               "rename": 30, "copy.equal": 300, "copy.independent": 300, "default.explicit": 154, "subset.case": 200,
               "structured.value": 90, "flaglist.roundtrip": 30,
               "hook:SettingsWriter.writeYaml": 6000, "hook:SettingsReader._applySettings": 20000, "hook:Setting.setValue": 20000},
-    "thorough": {"setting.enumerated": 154, "roundtrip.compare": 60000, "style.keys": 60000, "reject.assign": 10000, "reject.read": 5000,
+    "thorough": {"setting.enumerated": 154, "roundtrip.compare": 40000, "style.keys": 40000, "reject.assign": 10000, "reject.read": 5000,
                  "rename": 100, "copy.equal": 4000, "copy.independent": 4000, "default.explicit": 154, "subset.case": 5000,
-                 "structured.value": 3000, "flaglist.roundtrip": 500,
-                 "hook:SettingsWriter.writeYaml": 60000, "hook:SettingsReader._applySettings": 200000, "hook:Setting.setValue": 200000},
+                 "structured.value": 2000, "flaglist.roundtrip": 500,
+                 "hook:SettingsWriter.writeYaml": 40000, "hook:SettingsReader._applySettings": 200000, "hook:Setting.setValue": 200000},
 }
 
 STYLES = ("short", "medium", "full")
@@ -64,10 +64,10 @@ def plan(tier, seed):
     q = tier == "quick"
     shards = [{"name": "defaults", "kind": "defaults"}]
     for k in range(N_EACH):
-        shards.append({"name": "each-%d" % k, "kind": "each", "k": k, "of": N_EACH, "nrand": 6 if q else 150, "nstruct": 40 if q else 1000})
+        shards.append({"name": "each-%d" % k, "kind": "each", "k": k, "of": N_EACH, "nrand": 6 if q else 250, "nstruct": 40 if q else 1500})
     for k in range(N_SUB if q else 12):
-        shards.append({"name": "subsets-%d" % k, "kind": "subsets", "n": 60 if q else 450})
-    shards.append({"name": "flags", "kind": "flags", "n": 60 if q else 1500})
+        shards.append({"name": "subsets-%d" % k, "kind": "subsets", "n": 60 if q else 600})
+    shards.append({"name": "flags", "kind": "flags", "n": 60 if q else 2500})
     return shards
 
 
@@ -770,7 +770,7 @@ def roundtrip(ctx, src, style, setByUser, changed, where, tgt=None, allnames=Non
     if wv[0] == "d" and gv[0] == "d":
         gitems = {json.dumps(k, sort_keys=True): v for k, v in gv[1]}
         lost = [k for k, v in wv[1] if k != ["s", "armi"] and gitems.get(json.dumps(k, sort_keys=True)) != v]
-        if lost:
+        if lost and not yaml_limit(ctx, src, ["versions"], changed):
             rec.violation("roundtrip/versions-lost/%s" % changed.get("versions", "default"), "versions entries %s set before the write are missing/changed afterwards: %s" % (lost, show(held(tgt, "versions"))), wit)
         if not any(k == ["s", "armi"] for k, _v in gv[1]):
             rec.violation("roundtrip/versions-not-stamped", "versions read back without the 'armi' stamp", wit)
@@ -1525,7 +1525,10 @@ def do_flags(spec, rec, rng):
             rec.hit("reject.read")
             try:
                 quiet_load(cs, text)
-                rec.violation("reject/accepted-invalid/read/FlagListSetting", "file with %s: %s accepted" % (n, show(bad)), {"setting": n, "text": text})
+                if canon(held(cs, n)) != before:
+                    rec.violation("reject/accepted-invalid/read/FlagListSetting", "file with %s: %s accepted (now %s)" % (n, show(bad), show(held(cs, n))), {"setting": n, "text": text})
+                else:
+                    rec.violation("reject/read-no-error/FlagListSetting", "file with the invalid %s: %s raised nothing (value silently ignored)" % (n, show(bad)), {"setting": n, "text": text})
             except Exception:
                 rec.reject("near-miss refused on read")
                 if canon(held(cs, n)) != before:
